@@ -557,3 +557,19 @@ def format_parts(t):
         elif x != "":
             out.append(x)
     return ("parts", tuple(out))
+
+
+import re as _re_rel
+_RULE_AT_START = _re_rel.compile(r"^((?:shared C\d\d rules: )*)(C\d\d\.R\d+)\b")
+
+
+def relevant_errors(sub, rules):
+    """The analysis errors of a lender that concern a borrower of `rules`: an error that names its rule (`Cxx.Ry undecided: ...`) concerns only
+    borrowers of that rule; errors without a rule id (anchor vanished, floors, engine errors, errors the lender itself inherited) concern everybody."""
+    out = []
+    for e in sub.errors:
+        m = _RULE_AT_START.match(e)
+        if m and not m.group(1) and m.group(2).startswith(sub.prop + ".") and m.group(2) not in rules:
+            continue
+        out.append(e)
+    return out
